@@ -74,6 +74,8 @@ class World(BaseWorld):
         self.unsat_warned = False
         self.n_anc_cons = 0
         self.lam0_constraints = 0
+        self.forks = []
+        self.fork_mode = False
 
     def fail(self, oracle, detail):
         if oracle in self.active:
@@ -221,6 +223,8 @@ class World(BaseWorld):
             return {"op": "obj", "terms": self.gen_poly_terms(rng, rng.randint(1, 2), min(2, c["obj_deg"]), 1, c["obj_coefs"], 0.2)}
         if kind == "observe":
             return {"op": "observe", "what": rng.choice(["to_pubo", "to_puso", "to_qubo", "to_quso", "solve"])}
+        if kind == "copy":
+            return {"op": "copy", "keep": rng.choice(["copy", "original"])}
         return {"op": kind}
 
     # ================================================================ execution
@@ -449,6 +453,7 @@ class World(BaseWorld):
 
     def do_copy(self, op):
         before, cb, ab = self.stored(), self.recorded().canonical(), self.H.num_ancillas
+        old = self.H
         try:
             self.H = self.H.copy()
         except Exception as e:
@@ -457,6 +462,15 @@ class World(BaseWorld):
         self.history_check("copy", before, cb, ab)
         if self.issued:
             self.probe("constraint_after_copy_possible")
+        # the history continues on one side; the other side is shelved with its own reference and must stay as it is
+        other = old
+        if op.get("keep") == "original":
+            other, self.H = self.H, old
+        if len(self.forks) < 3:
+            self.forks.append({"obj": other, "stored": before, "recorded": cb, "anc": ab, "f": self.f.copy(), "cons": self.cons.copy(),
+                               "logic": list(self.logic), "lams": list(self.lams), "unsat": self.unsat_warned, "lam0": self.lam0_constraints,
+                               "issued": set(self.issued)})
+            self.fault("fork_shelved")
         return "copy"
 
     def do_refresh(self, op):
@@ -503,6 +517,30 @@ class World(BaseWorld):
 
     # ================================================================ end-of-run workflow oracle (C08)
     def finish(self):
+        if self.H is None:
+            return None
+        out = self.workflow()
+        keep = (self.H, self.f, self.cons, self.logic, self.lams, self.unsat_warned, self.lam0_constraints, self.issued, self.discarded)
+        for i, fk in enumerate(self.forks):
+            self.H, self.f, self.cons, self.logic, self.lams = fk["obj"], fk["f"], fk["cons"], fk["logic"], fk["lams"]
+            self.unsat_warned, self.lam0_constraints, self.issued = fk["unsat"], fk["lam0"], fk["issued"]
+            self.fork_mode = True
+            try:
+                # a shelved side must not have been touched by what happened to the other side afterwards
+                if self.stored() != fk["stored"] or self.H.num_ancillas != fk["anc"]:
+                    self.fail("history_op_changed_model", "fork %d (shelved at a copy) was changed by later operations on the other side" % i)
+                if self.recorded().canonical() != fk["recorded"]:
+                    self.probe("fork_constraints_changed")
+                    self.fail("constraint_recorded_wrong", "fork %d (shelved at a copy): its recorded constraints changed through later operations on the "
+                              "other side: %r -> %r" % (i, fk["recorded"], self.recorded().canonical()))
+                self.check_valid("fork %d" % i)
+                self.workflow()
+            finally:
+                self.fork_mode = False
+        (self.H, self.f, self.cons, self.logic, self.lams, self.unsat_warned, self.lam0_constraints, self.issued, self.discarded) = keep
+        return out
+
+    def workflow(self):
         if self.prop != "C08" or self.H is None:
             return None
         if not (self.cons.items or self.logic):
@@ -572,6 +610,8 @@ class World(BaseWorld):
                 # converted solutions cannot assign such a variable either: same root cause, not judged further
                 self.discarded = "constraint_only_variable"
                 return ["workflow", "orphan"]
+            if self.fork_mode and sol is None:
+                return ["workflow", "fork"]
             if sol is not None:
                 dom0 = 0 if self.kind == BOOL else 1
                 full = {l: sol.get(l, dom0) for l in xs}
@@ -601,6 +641,9 @@ class World(BaseWorld):
                     judge(H.remove_ancilla_from_solution(s), "minimiser of the penalised model", "minimiser_not_feasible_optimal")
             except (OverflowError, ValueError):
                 self.probe("table_skipped")
+        if self.fork_mode:
+            self.probe("fork_workflow_checked")
+            return ["workflow", "fork", str(opt)]
         # 3. the four reduced / converted forms
         n = H.num_binary_variables
         forms = [("to_pubo", BOOL, {}), ("to_puso", SPIN, {}), ("to_qubo", BOOL, {}), ("to_quso", SPIN, {})]
